@@ -93,6 +93,8 @@ def instances(tier, seed):
             M = [1, 2][(n // 2) % 2] if tier == 'quick' else rng.choice([1, 2, 3])
             if method == 'DC' and fam.rational_tables(degree, scheme):
                 M = 2       # exact interpolation identities are only available here: make sure sub-stepping is exercised
+            if method == 'MS' and tier == 'quick':
+                M = 2 if intg == 'rk' else 3      # the step-length inputs DT and DT_control of the one-step maps differ only for M > 1
             if method == 'SS':
                 N, M = min(N, 2), min(M, 2) if N == 1 else 1      # SingleShooting terms nest: z3 needs minutes beyond 2 steps
             g = grids[(n + rep) % len(grids)]
@@ -105,6 +107,11 @@ def instances(tier, seed):
             s.objective = [at_tf(X(0) * X(1))]
             add(spec=fam.with_horizon(s, h), cfg=Cfg(method, N=N, M=M, intg=intg or 'rk', grid=g, degree=degree or 4, scheme=scheme or 'radau'))
             n += 1
+    # SingleShooting with sub-steps (one control interval: the nesting stays shallow)
+    for intg in ('rk', 'expl_euler'):
+        s = copy.deepcopy(fam.ode_core()[0])
+        s.objective = [at_tf(X(0) * X(1))]
+        add(spec=fam.with_horizon(s, Hsym[0]), cfg=Cfg('SS', N=1, M=2, intg=intg, grid=fam.G_UNI))
     return items
 
 
